@@ -535,6 +535,11 @@ func (e *SpecEnv) evalCall(n *Node) SV {
 		x := e.eval(n.Args[0])
 		m := e.heapArr(mapSBKey)
 		return SV{T: e.P.norm(tSelect(m, x.T, SArrSB))}
+	case "mapstore":
+		m := e.eval(n.Args[0])
+		k := e.eval(n.Args[1])
+		v := e.eval(n.Args[2])
+		return SV{T: tStore(m.T, k.T, v.T)}
 	case "f64":
 		x := e.eval(n.Args[0])
 		if x.T.Sort == SInt {
